@@ -1123,7 +1123,7 @@ def rule_nonempty(ctx):
     written on *every* path from its creation to the pick (the 'memory' bias on the current label is that entry).
     Statement CFG: every path from the empty tally's creation to the subscripted pick passes a keyed store that is
     not inside a loop or branch of its own."""
-    r = RuleResult("C05-NONEMPTY", "a tally that is picked from has an entry on every path", 2)
+    r = RuleResult("C05-NONEMPTY", "a tally that is picked from has an entry on every path; extremes over edges have a default", 3)
     for path in ("cotengra/pathfinders/path_labels.py",):
         m = ctx.p.modules.get(path)
         C.require(m is not None, f"{path} not found")
@@ -1166,6 +1166,71 @@ def rule_nonempty(ctx):
                     r.exempt(cons, C.loc(f, sub), f"`{name}` is not created empty here: not decided")
                 else:
                     r.ok(cons, C.loc(f, sub), f"every path from the empty `{name}` to the pick writes an entry")
+    # (defect F28) extremes over per-edge collections: a network of scalars has no edge at all
+    for path in ("cotengra/pathfinders/path_labels.py", "cotengra/pathfinders/path_kahypar.py", "cotengra/pathfinders/path_igraph.py"):
+        m = ctx.p.modules.get(path)
+        if m is None:
+            continue
+        for f in m.all_funcs:
+            params = [a.arg for a in f.node.args.args]
+            if "inputs" not in params or "parts" not in params:
+                continue
+            k = 0
+            for call in (n for n in walk_local(f.node) if isinstance(n, ast.Call)):
+                if dotted(call.func) not in ("max", "min") or len(call.args) != 1:
+                    continue
+                arg = call.args[0]
+                fl = ctx.flow(f)
+                txt = C.unparse(arg, 200) + " ".join(map(str, fl.deps(arg, fl.node_of_expr(call), "may")))
+                if "edge" not in txt:
+                    continue
+                cons = f"{path}::{f.qual}::C05-NONEMPTY::{dotted(call.func)}-over-edges#{k}"
+                k += 1
+                guarded = any(kw.arg == "default" for kw in call.keywords) or any(
+                    C.unparse(arg, 200) in C.unparse(i_.test, 400) or "num_edges" in C.unparse(i_.test, 400)
+                    for i_, t in C.enclosing_ifs(f, C.enclosing_stmt(f, call)))
+                if guarded:
+                    r.ok(cons, C.loc(f, call), "extreme over the edges has a default (or is taken only when there are edges)")
+                else:
+                    r.violation(cons, C.loc(f, call), f"`{C.unparse(call)}`: a network of scalars has no edges, the collection is empty and "
+                                "the partitioner raises ValueError — no contraction is returned")
+    return r
+
+
+def rule_progress(ctx):
+    """(defect F27; sibling agreement) Both builders of PartitionTreeBuilder loop on what an arbitrary partitioner
+    returns.  A partitioner may find nothing to do — one community for everything (divisive), or every node a
+    community of its own (agglomerative: label propagation on a network without shared indices) — and then the
+    loop's own state does not change.  Each such loop needs an escape that looks at the number of groups the
+    partition produced and leaves the iteration without relying on it."""
+    r = RuleResult("C05-PROGRESS", "partition-driven loops escape when the partition makes no progress", 2)
+    ptb = ctx.p.cls(C.CORE, "PartitionTreeBuilder")
+    C.require(ptb is not None, "PartitionTreeBuilder not found")
+    for name, f in sorted(ptb.methods.items()):
+        for loop in (n for n in walk_local(f.node) if isinstance(n, ast.While)):
+            if not any(isinstance(c, ast.Call) and C.unparse(c.func) == "self.partition_fn" for c in ast.walk(loop)):
+                continue
+            cons = f"{C.CORE}::PartitionTreeBuilder.{name}::C05-PROGRESS::while@{C.unparse(loop.test, 40)}"
+            groups = set()
+            for n in ast.walk(loop):
+                if isinstance(n, ast.Assign) and any(isinstance(c, ast.Call) and dotted(c.func) == "separate" for c in ast.walk(n.value)):
+                    groups |= {t.id for t in n.targets if isinstance(t, ast.Name)}
+            esc = None
+            for n in ast.walk(loop):
+                if not isinstance(n, ast.If):
+                    continue
+                lens = {c.args[0].id for c in ast.walk(n.test) if isinstance(c, ast.Call) and dotted(c.func) == "len" and c.args
+                        and isinstance(c.args[0], ast.Name)}
+                if not (lens & groups and any(isinstance(c, ast.Compare) for c in ast.walk(n.test))):
+                    continue
+                if n.body and isinstance(n.body[-1], (ast.Continue, ast.Break, ast.Return, ast.Raise)):
+                    esc = n
+            if esc is not None:
+                r.ok(cons, C.loc(f, esc), f"`if {C.unparse(esc.test, 50)}` leaves the iteration when the partition did nothing")
+            else:
+                r.violation(cons, C.loc(f, loop), f"{name}: the loop `while {C.unparse(loop.test, 50)}` re-partitions what the partitioner returned "
+                            "without ever looking at how many groups came back: a partition that merges (divides) nothing — label "
+                            "propagation on tensors without shared indices — leaves the loop state unchanged and it never terminates")
     return r
 
 
@@ -1184,4 +1249,4 @@ def _shared_rules():
     return out
 
 
-RULES = [rule_nonempty, rule_zerostep, rule_emptypath, rule_cpstate, rule_consume, rule_remain, rule_complete, rule_linearids, rule_steps, rule_childless, rule_labels, rule_edgepath] + _shared_rules()
+RULES = [rule_progress, rule_nonempty, rule_zerostep, rule_emptypath, rule_cpstate, rule_consume, rule_remain, rule_complete, rule_linearids, rule_steps, rule_childless, rule_labels, rule_edgepath] + _shared_rules()
